@@ -9,6 +9,9 @@
     for every datagram an endpoint emits, header ack/ack_bits must name exactly
     the peer datagrams it has accepted among the newest 32, judged against the
     monitor's own acceptance record (mon/engines/monitors.py: WireMonitor, RecvMonitor).
+    The record is also taken at the server's datagram entry point (EntryRecord): third parties present exact copies of
+    genuine datagrams from foreign addresses before/after/around the original; a genuine datagram that reached the
+    server from its connection's own address for the first time must be named by the next ack fields emitted.
 """
 from mon.core.merge import merge, need
 from mon.core.util import Counter, h64, rng
@@ -193,6 +196,102 @@ def run_window(cfg, counters, violations, samples, distinct):
     return counters.get("bitfield_insert", 0)
 
 
+def foreign_address(w, r, own):
+    """an address that is not the sender's: unknown to the server, the sender's host with another port, or the address of
+    another connected client"""
+    others = [c.addr for c in w.clients if c.addr != own]
+    k = r.random()
+    if others and k < 0.3:
+        return r.choice(others)
+    if k < 0.5:
+        return (own[0], own[1] % 60000 + 1 + r.randint(1, 5000))
+    return ("10.%d.%d.%d" % (r.randint(40, 250), r.randint(0, 255), r.randint(1, 254)), r.randint(1024, 65000))
+
+
+class EntryRecord(object):
+    """the acceptance record taken one step further out, at the server's datagram entry point (TwistedServer.datagramReceived):
+    a genuine datagram of an established connection that reaches the server FROM THAT CONNECTION'S OWN ADDRESS for the first
+    time has been received, whatever else arrived around it from whatever other address.  The first header the server emits
+    to that peer after it has worked through the batch must name it in ack / ack_bits if it is among the newest 32 (an ack
+    number OLDER than it is wrong as well).  Datagrams that have left the window by then are not judged."""
+
+    def __init__(self, run):
+        self.run = run
+        self.w = run.world
+        self.c = run.c
+        self.pending = {}            # id(conn) -> {unwrapped index -> entry}
+        self.seen = {}               # id(conn) -> set of unwrapped indices presented from the own address before
+        self.last_offer = None       # (addr, datagram) of the previous datagram offered to the server
+        self.w.after_offer_hooks.append(self.offered)
+        run.tap.listeners.append(self)
+
+    def offered(self, addr, datagram, origin):
+        w = self.w
+        prev, self.last_offer = self.last_offer, (addr, datagram)
+        conn = w.ctxt.connections.get(addr)
+        if conn is None or getattr(conn.status, "value", 0) != 2 or conn.session_key_bytes is None:
+            return
+        e = self.run.tap.end(conn)
+        G = self.run.tap.genuine_for(e, conn.session_key_bytes, datagram)
+        if G is None or G != datagram:
+            return
+        from mon.engines.lockstep import parse_header
+        h = parse_header(datagram)
+        u = e.unwrap_peer(h[2])
+        seen = self.seen.setdefault(id(conn), set())
+        if u in seen or u in e.acc:
+            return                   # not the first presentation: a duplicate verdict is right (judged by RecvMonitor)
+        seen.add(u)
+        if len(seen) > 4096:
+            lo = max(seen) - 2048
+            self.seen[id(conn)] = {x for x in seen if x >= lo}
+        if e.acc_top is not None and u < e.acc_top - 32:
+            return                   # older than the window already
+        self.c.inc("entry_received_recorded")
+        self.pending.setdefault(id(conn), {})[u] = {
+            "seq": h[2], "iter": w.server_iterations, "dropped": conn.stats.dropped,
+            "shadow": (prev[0] if (prev is not None and prev[1] == datagram and prev[0] != addr) else None), "ptype": h[4]}
+
+    def emitted(self, e, direction, addr, datagram, dec, n):
+        if direction != "s2c" or e.role != "server" or not dec.ok or getattr(self.w, "reactor_lag", 0):
+            return
+        pend = self.pending.get(id(e.conn))
+        if not pend:
+            return
+        if getattr(e.conn.status, "value", 0) != 2:
+            pend.clear()
+            return
+        it = self.w.server_iterations
+        for u in sorted(pend):
+            ent = pend[u]
+            if ent["iter"] >= it:
+                continue             # the loop has not yet worked through the batch that datagram is in
+            del pend[u]
+            if dec.ack == 0:
+                back, named = None, False
+            else:
+                back = ring_diff(dec.ack, ent["seq"])
+                if back > 32:
+                    self.c.inc("entry_received_left_window_unjudged")
+                    continue
+                named = back == 0 or (back > 0 and bool(dec.ack_bits & (0x80000000 >> (back - 1))))
+            self.c.inc("entry_received_judged")
+            if ent["shadow"] is not None:
+                self.c.inc("entry_received_after_foreign_copy_judged")
+            if not named:
+                self.run.report("C08", "received-datagram-not-named-by-ack",
+                                "datagram seq %d (type %d) reached the server's entry point from its connection's own address %s:%d for the first time%s; "
+                                "%d loop iterations later the server emits ack=%d bits=%08x, which %s. The connection's acceptance record %s it; "
+                                "its stats.dropped went %d -> %d%s" % (
+                                    ent["seq"], ent["ptype"], addr[0], addr[1],
+                                    (" (an exact copy from the foreign address %s:%d was presented just before it)" % ent["shadow"]) if ent["shadow"] else "",
+                                    it - ent["iter"], dec.ack, dec.ack_bits,
+                                    "does not name it" if (back is None or back >= 0) else "is an older number",
+                                    "holds" if u in e.acc else "does not hold", ent["dropped"], e.conn.stats.dropped,
+                                    " (a duplicate verdict for a datagram never received before)" if (u not in e.acc and e.conn.stats.dropped > ent["dropped"]) else ""),
+                                {"shadowed_by_foreign_copy": ent["shadow"] is not None})
+
+
 def run_wire(cfg, counters, violations, samples, distinct):
     """lockstep sessions under loss/duplication/reordering with the wire/recv monitors: every emitted header's
     ack and ack_bits and every duplicate verdict are compared with the monitor's own acceptance record; the
@@ -219,8 +318,25 @@ def run_wire(cfg, counters, violations, samples, distinct):
                 forged = A.header(direction, h[1], (h[2] + r.choice([1, 2, 40, 500])) % 65535 + 1, h[3], h[4], h[5], h[6], h[7]) + d[20:]
                 run.c.inc("adv_forged_future_seq")
                 return ("replace", [(d, "honest"), (forged, "forged:future-seq")])
+            if x < 0.13 and direction == "c2s":
+                # a third party that sees the traffic (reflector, hairpinning NAT, sniffing attacker) presents exact copies of a
+                # genuine datagram from OTHER source addresses - before, after or around the original, back to back
+                h = L.parse_header(d)
+                if h is None or h[4] == 1:
+                    return None
+                place = r.choice(["first", "first", "first", "after", "around", "first-twice"])
+                seq_ = {"first": ["f", "o"], "after": ["o", "f"], "around": ["f", "o", "f"], "first-twice": ["f", "f", "o"]}[place]
+                for what in seq_:
+                    if what == "o":
+                        w.net.inject("c2s", addr, d, "honest", 0.004)
+                    else:
+                        w.net.inject("c2s", foreign_address(w, r, addr), d, "dup:foreign-address", 0.004)
+                run.c.inc("adv_foreign_copy_" + ("first" if seq_[0] == "f" else "after"))
+                return "drop"                                                     # (this filter has taken over the delivery)
             return None
         w.net.filters.append(flt)
+        if not getattr(run, "_c08_entry", None):
+            run._c08_entry = EntryRecord(run)
         return lambda: w.net.filters.remove(flt) if flt in w.net.filters else None
     from mon.engines import lockstep as L
     n = c05.run_faults({"seed": cfg["seed"], "shard": cfg["shard"], "n": cfg["n"], "tier": cfg["tier"]}, out, props=("C08",), tag="C08",
@@ -254,7 +370,9 @@ def finish(tier, seed, results):
     inconclusive = []
     need(m["counters"], ["ring_pairs", "ring_random_pairs", "bitfield_insert", "bitfield_dup_raised", "bitfield_window_sweeps",
                          "window_histories_crossing_wrap", "wire_datagrams_checked", "wire_ackbits_nonzero",
-                         "wire_duplicates_presented", "adv_damaged_copy_first", "adv_forged_future_seq"], inconclusive)
+                         "wire_duplicates_presented", "adv_damaged_copy_first", "adv_forged_future_seq",
+                         "adv_foreign_copy_first", "adv_foreign_copy_after", "entry_received_judged",
+                         "entry_received_after_foreign_copy_judged"], inconclusive)
     cov = {
         "evaluations": m["evaluations"],
         "distinct_nontrivial": m["distinct_nontrivial"],
@@ -263,7 +381,9 @@ def finish(tier, seed, results):
                 "half the ring; window: seeded insertion histories per width %r judged after every insert by a set-of-received "
                 "shadow model (current, every bit, contains() over the whole window, duplicate flag) - distinct = distinct "
                 "histories; wire: pair-engine sessions under loss/dup/reorder where every emitted header's ack/ack_bits and every "
-                "duplicate verdict is compared with the monitor's own acceptance record - distinct = distinct sessions" % (WIDTHS,),
+                "duplicate verdict is compared with the monitor's own acceptance record, and every genuine datagram first presented "
+                "at the server's entry point from its connection's own address (also right behind exact copies from foreign "
+                "addresses) must be named by the next emitted ack fields - distinct = distinct sessions" % (WIDTHS,),
         "exhaustive": tier == "thorough",
         "exhaustive_scope": "ring part only: all 65535 values x the listed offsets (thorough); quick covers three bands of 300 values",
         "samples": m["samples"],
